@@ -26,6 +26,7 @@ var c19Filters = []c19Filter{
 	{"yesno", "\"y,n,m\""}, {"yesno", ""}, {"pluralize", ""}, {"pluralize", "\"es\""}, {"divisibleby", "2"}, {"integer", ""}, {"float", ""},
 	{"escape", ""}, {"addslashes", ""}, {"striptags", ""}, {"urlencode", ""}, {"linebreaksbr", ""}, {"make_list", ""}, {"split", "\",\""},
 	{"default", "[ps, pn]"}, {"default", "[sv, 1]"}, {"join", "pv"}, {"add", "[pn]"},
+	{"e", ""}, {"time", "\"15:04\""}, {"date", "\"2006\""},
 	{"length_is", "3"}, {"get_digit", "1"}, {"default_if_none", "\"none\""}, {"safe", ""}, {"escapejs", ""}, {"phone2numeric", ""},
 }
 
@@ -115,6 +116,15 @@ func runC19(r *run) {
 			{"{% macro m(n) %}{% filter upper %}{% for i in \"ab\" %}{{ i }}{% if n %}{{ m(n - 1) }}{% endif %}{% endfor %}{% endfilter %}{% endmacro %}{{ m(1) }}", "AABBAB"},
 		} {
 			a := w.args(c[0], c19Ctx())
+			emit(caseT{"reentrant", append(a, "-", "-", hx(c[1]))})
+		}
+		// a chain applied to a name that is bound to nothing in the current scope works on that
+		// nothing, not on a context entry of the same name
+		for _, c := range [][2]string{
+			{"{% macro greet(name) %}<{{ name|default:\"anonymous\" }}>{% endmacro %}{{ greet() }}{{ greet(nick|safe) }}{{ greet(\"x\") }}", "<anonymous><anonymous><x>"},
+			{"{% with name=nothere %}[{{ name|default:\"d\"|upper }}]{% endwith %}{% set name = nick %}[{{ name|default:\"e\" }}][{{ name|length }}]", "[D][e][0]"},
+		} {
+			a := w.args(c[0], append(c19Ctx(), ctxEntry{"name", gStr("ACME Inc.")}))
 			emit(caseT{"reentrant", append(a, "-", "-", hx(c[1]))})
 		}
 		// unknown names
